@@ -4,7 +4,14 @@ import PdtVerif.Spec.Recoverable
 /-! Driver for C16: replays a crash schedule on the checkpoint model.
 
 case: {quirks: "fixed"|"pinned", keep_lb, mkeys: [key of epoch 0..], okeys: [..],
-       metrics: [[train|null, val|null] ..]  (epoch 1..n), best_is_train  (`deciding` picks the column),
+       metrics: [[train|null, val|null] ..]  (epoch 1..n; RAW values as handed to update_for_epoch, as
+                                order-preserving integers), best_is_train  (`deciding` picks the column),
+       rounding: {file: [[x, y] ..], mem: [[x, y] ..]}  (optional; `Rounding` as finite tables, identity
+                                elsewhere: what the history file records for x / what get_best_epoch
+                                compares. A session started with k0 recorded epochs plans its updates
+                                with `memVals R raw k0`; what a new controller calls best uses
+                                `recVals R raw`; the spec's `rec` / `exact_lb` are judged on the
+                                history as recorded, `fileVals R raw`),
        red: [null | lr id ..]  (epoch 1..n: the learning rate `update_for_epoch(e)` writes into the
                                 optimizer before it saves; absent = no reduction anywhere),
        sched: [{epoch, k, torn, rm: [[kind,key]..]} ..]}   -- one killed session each; `torn`: call k
@@ -63,8 +70,18 @@ def stateJ : Option St → Json
 structure Cfg where
   Q : Quirks
   P : Params
-  vals : List (Option Int)
+  raw : List (Option Int)
+  R : Rounding
   tr : Train
+
+/-- the values a controller started with `k0` recorded epochs compares -/
+def Cfg.valsAt (c : Cfg) (k0 : Nat) : List (Option Int) := memVals c.R c.raw k0
+/-- the values a controller started on the recorded history compares -/
+def Cfg.vals (c : Cfg) : List (Option Int) := recVals c.R c.raw
+/-- the history as recorded: what the spec's "best" is the first minimum of -/
+def Cfg.spec (c : Cfg) : List (Option Int) := fileVals c.R c.raw
+
+def tableFn (t : List (Int × Int)) : Int → Int := fun x => ((t.find? (fun p => p.1 == x)).map (·.2)).getD x
 
 def recJ (c : Cfg) (d : Disk) : Json :=
   match recorded d with
@@ -74,8 +91,8 @@ def recJ (c : Cfg) (d : Disk) : Json :=
     objJ [("readable", boolJ true), ("k", natJ k), ("best", natJ b),
           ("load_last", stateJ (loadState c.P d k)), ("load_best", stateJ (loadState c.P d b)),
           ("want_last", stateJ (some (U c.tr k))), ("want_best", stateJ (some (U c.tr b))),
-          ("rec", boolJ (recOk c.P c.vals c.tr d)),
-          ("exact_lb", boolJ (exactLBOk c.P c.vals d k)),
+          ("rec", boolJ (recOk c.P c.spec c.tr d)),
+          ("exact_lb", boolJ (exactLBOk c.P c.spec d k)),
           ("all_loadable", boolJ ((List.range' 1 k).all (fun j => decide (loadState c.P d j = some (U c.tr j)))))]
 
 structure CrashIn where
@@ -97,12 +114,13 @@ structure SessOut where
   disk : Disk
 
 /-- the in-process loop: `fuel` updates at most. -/
-def loopS (c : Cfg) (crash : Option CrashIn) : Nat → Nat → St → Disk → List Json → SessOut
+def loopS (c : Cfg) (vals : List (Option Int)) (crash : Option CrashIn) :
+    Nat → Nat → St → Disk → List Json → SessOut
   | 0, k, _, d, ups => { status := "completed", atEpoch := some k, updates := ups.reverse, disk := d }
   | fuel + 1, k, s, d, ups =>
     let e := k + 1
     let s' := c.tr.step e s
-    match planUpdate c.Q c.P c.vals k d s' with
+    match planUpdate c.Q c.P vals k d s' with
     | .error _ => { status := "refused", atEpoch := some e, updates := ups.reverse, disk := d }
     | .ok (main, cl) =>
       let crashHere := match crash with
@@ -120,12 +138,12 @@ def loopS (c : Cfg) (crash : Option CrashIn) : Nat → Nat → St → Disk → L
             hintOk := hintOk, disk := d'' }
         else
           let d' := exec d ops
-          loopS c crash fuel e s' d'
+          loopS c vals crash fuel e s' d'
             (objJ [("epoch", natJ e), ("trace", listJ opJ ops), ("disk", diskJ d')] :: ups)
       | none =>
         let ops := opsOf main cl
         let d' := exec d ops
-        loopS c crash fuel e s' d'
+        loopS c vals crash fuel e s' d'
           (objJ [("epoch", natJ e), ("trace", listJ opJ ops), ("disk", diskJ d')] :: ups)
 
 def runSession (c : Cfg) (d : Disk) (crash : Option CrashIn) : SessOut :=
@@ -135,7 +153,7 @@ def runSession (c : Cfg) (d : Disk) (crash : Option CrashIn) : SessOut :=
     match loadState c.P d k with
     | none => { status := "stuck_load", start := some k, disk := d }
     | some s =>
-      let r := loopS c crash (c.vals.length - k) k s d []
+      let r := loopS c (c.valsAt k) crash (c.raw.length - k) k s d []
       { r with start := some k }
 
 def sessionJ (c : Cfg) (o : SessOut) : Json :=
@@ -176,6 +194,19 @@ def parsePair (j : Json) : Except String (Option Int × Option Int) := do
 
 def keyFn (l : List Nat) : Nat → Nat := fun e => l.getD e e
 
+def parseIntPair (j : Json) : Except String (Int × Int) := do
+  let a ← j.getArr?
+  match a.toList with
+  | [x, y] => do pure (← jsonToInt x, ← jsonToInt y)
+  | _ => throw "bad table entry"
+
+def parseTable (c : Json) (name : String) : Except String (List (Int × Int)) :=
+  match fieldOpt c "rounding" with
+  | none => pure []
+  | some r => match fieldOpt r name with
+    | none => pure []
+    | some t => jsonToList parseIntPair t
+
 def parseCfg (c : Json) : Except String Cfg := do
   let q ← getStr c "quirks"
   let Q ← match q with
@@ -190,7 +221,9 @@ def parseCfg (c : Json) : Except String Cfg := do
   let red ← match fieldOpt c "red" with
     | none => pure []
     | some r => jsonToList (jsonToOption (fun j => j.getNat?)) r
-  pure ⟨Q, ⟨keep, keyFn mk, keyFn ok⟩, deciding bit ms, trainD red⟩
+  let tf ← parseTable c "file"
+  let tm ← parseTable c "mem"
+  pure ⟨Q, ⟨keep, keyFn mk, keyFn ok⟩, deciding bit ms, ⟨tableFn tf, tableFn tm⟩, trainD red⟩
 
 def c16Run : Handler := fun j => do
   let c ← parseCfg j
@@ -199,6 +232,11 @@ def c16Run : Handler := fun j => do
       let o := runSession c acc.1 (some ci)
       (o.disk, sessionJ c o :: acc.2)) (Disk.blank, [])
   let fin := runSession c d none
-  pure (objJ [("sessions", Json.arr outs.reverse.toArray), ("final", sessionJ c fin)])
+  -- the hypothesis of the `_rounded` theorems (`Rounding.Consistent`) on the values of this case
+  let cons := c.raw.all (fun v => match v with
+    | none => true
+    | some x => c.R.mem x == c.R.file x && c.R.file (c.R.file x) == c.R.file x)
+  pure (objJ [("sessions", Json.arr outs.reverse.toArray), ("final", sessionJ c fin),
+              ("rounding_consistent", boolJ cons)])
 
 def main : IO Unit := Proto.run [("c16.run", c16Run)]
